@@ -62,7 +62,7 @@ def gen(tier, rng):
                     v = v + Fr(1, 8)
                 pix.append([v.numerator, v.denominator])
             pts.append(pix)
-        form = rng.choice(["values_float_units", "values_float_km", "values_quantity", "values_quantity_km", "objects", "objects"])
+        form = rng.choice(["values_float_units", "values_float_km", "values_quantity", "values_quantity_km", "values_quantity_mixed", "objects", "objects"])
         all_none = rng.random() < 0.04
         bad = rng.choice([None] * 12 + ["short", "wrongclass", "badunit", "unitlen"])
         keepdims = rng.random() < 0.5
@@ -141,7 +141,7 @@ def run(case):
     units = list(ll.world_axis_units)
     form, bad = case["form"], case["bad"]
 
-    def mkpoint(w, as_objects):
+    def mkpoint(w, as_objects, pi=0):
         comps_ = []
         for i, v in enumerate(w):
             if i in none_w:
@@ -152,6 +152,8 @@ def run(case):
                 comps_.append(float(v) / 1000.0 if units[i] == "m" else float(v))
             elif form == "values_quantity_km" and not as_objects and units[i] == "m":
                 comps_.append((float(v) / 1000.0) * u.km)
+            elif form == "values_quantity_mixed" and not as_objects and units[i] == "m" and (pi + i) % 2 == 1:
+                comps_.append((float(v) / 1000.0) * u.km)          # the same coordinate in another unit than in the other points
             else:
                 comps_.append(float(v) * u.Unit(units[i]))
         return comps_
@@ -175,7 +177,7 @@ def run(case):
                     point.append(None if all(i in none_w for i in ws) else obj)
                 pts.append(point)
         else:
-            pts = [mkpoint(w, False) for w in world_pts]
+            pts = [mkpoint(w, False, pi) for pi, w in enumerate(world_pts)]
         kwargs = {"keepdims": kd}
         if wname != "wcs":
             kwargs["wcs"] = wcs_obj
